@@ -1,7 +1,7 @@
 (* C07 - failures are always reported as tranp errors (the exception-flow part). *)
 From Coq Require Import List Bool.
 Import ListNotations.
-From Tranp Require Import Model.ExnFlow Proofs.ExnFlowProofs.
+From Tranp Require Import Model.ExnFlow Proofs.ExnFlowProofs Model.Interactive Proofs.InteractiveProofs.
 
 Theorem C07_handler_total : forall h, match emit h with Some e => e = EApp | None => h = None end.
 Proof. exact handler_total. Qed.
@@ -22,7 +22,36 @@ Theorem C07_unwrapped_stage_leaks :
   pipeline [{| wrapped := true; raises := Some EOther |}] = App.
 Proof. exact unwrapped_stage_leaks. Qed.
 
+(* the interactive loop (bin/io.py tty, bin/transpile.py Interactive.run) over any scripted keyboard: when no request leaks,
+   it reads exactly the keys up to the first `exit`, answers every program typed before it - the empty one too - with a result
+   or a rendered application error, in order, and returns *)
+Theorem C07_interactive_loop_survives : forall oc keys, (forall p, oc p <> Leak) ->
+  session oc keys = (Returned, map (event_of oc) (programs keys []), after_exit keys).
+Proof. exact session_survives. Qed.
+
+(* with the stages of every request converting what they raise, no request leaks *)
+Theorem C07_interactive_loop_with_wrapped_stages : forall (stages_of : list nat -> list stage) keys,
+  (forall p, Forall (fun s => wrapped s = true \/ raises s = None \/ raises s = Some EApp) (stages_of p)) ->
+  session (fun p => pipeline (stages_of p)) keys
+  = (Returned, map (event_of (fun p => pipeline (stages_of p))) (programs keys []), after_exit keys).
+Proof. intros stages_of keys H. apply session_survives. intros p. apply pipeline_total. apply H. Qed.
+
+(* and the converse: the first request that leaks ends the loop, the rest of the script stays unread *)
+Theorem C07_interactive_loop_leak : forall oc keys ps1 p ps2,
+  programs keys [] = ps1 ++ p :: ps2 -> (forall q, In q ps1 -> oc q <> Leak) -> oc p = Leak ->
+  exists r, session oc keys = (Escaped, map (event_of oc) ps1, r).
+Proof. exact session_leak. Qed.
+
+(* non-vacuity: a failing program, the empty program, a two-line program, `exit`, one unread line *)
+Example ex_session :
+  session (fun p => match p with [1] => App | _ => Ok end) [KLine 1; KBlank; KBlank; KLine 2; KLine 3; KBlank; KExit; KLine 4]
+  = (Returned, [EvError [1]; EvResult []; EvResult [2; 3]], [KLine 4]).
+Proof. vm_compute. reflexivity. Qed.
+
 Print Assumptions C07_handler_total.
 Print Assumptions C07_procedure_total_partial.
 Print Assumptions C07_pipeline_total_partial.
 Print Assumptions C07_unwrapped_stage_leaks.
+Print Assumptions C07_interactive_loop_survives.
+Print Assumptions C07_interactive_loop_with_wrapped_stages.
+Print Assumptions C07_interactive_loop_leak.
